@@ -69,6 +69,7 @@ pub fn read_directories(
         root_dir_offset_length,
         leaf_dir_offset,
         &filter_range,
+        &mut Vec::new(),
     )?;
 
     Ok(tiles)
@@ -127,11 +128,15 @@ pub async fn read_directories_async(
         root_dir_offset_length,
         leaf_dir_offset,
         &filter_range,
+        &mut Vec::new(),
     )
     .await?;
 
     Ok(tiles)
 }
+
+/// Maximum number of leaf directory levels below the root directory.
+const MAX_LEAF_DEPTH: usize = 8;
 
 /// Get (inclusive) end of range bounds.
 ///
@@ -157,7 +162,16 @@ async fn fn_name(
     (dir_offset, dir_length): (u64, u64),
     leaf_dir_offset: u64,
     filter_range: &FilterRangeTraits,
+    parents: &mut Vec<u64>,
 ) -> Result<()> {
+    // `parents` holds the offsets of all directories on the path to this one
+    if parents.len() > MAX_LEAF_DEPTH || parents.contains(&dir_offset) {
+        return Err(std::io::Error::new(
+            std::io::ErrorKind::InvalidData,
+            "Leaf directories are nested too deeply or form a cycle.",
+        ));
+    }
+
     seek_start([reader], [dir_offset])?;
     let directory = read_directory([reader], [dir_length], [compression])?;
     let range_end = range_end_inc(filter_range).unwrap_or(u64::MAX);
@@ -169,14 +183,25 @@ async fn fn_name(
                 continue;
             }
 
-            add_await([fn_name(
+            let leaf_offset = leaf_dir_offset.checked_add(entry.offset).ok_or_else(|| {
+                std::io::Error::new(
+                    std::io::ErrorKind::InvalidData,
+                    "Offset of leaf directory overflows 64 bit.",
+                )
+            })?;
+
+            parents.push(dir_offset);
+            let result = add_await([fn_name(
                 reader,
                 tiles,
                 compression,
-                (leaf_dir_offset + entry.offset, u64::from(entry.length)),
+                (leaf_offset, u64::from(entry.length)),
                 leaf_dir_offset,
                 filter_range,
-            )])?;
+                parents,
+            )]);
+            parents.pop();
+            result?;
             continue;
         }
 
